@@ -19,7 +19,7 @@ for sid in sys.argv[1:]:
     files = meta.get("files", [])
     demo_files = re.findall(r"^\+\+\+ b/(.*)$", open(f"{OUT}/demo.diff").read(), flags=re.M)
     demo_cmd = re.sub(r"^cd \S+ && ", "", meta["demo_cmd"].replace("&amp;", "&")).replace("/tmp/seedtarget1", "/tmp/seedverify")
-    sh("git checkout -q -- . && git clean -fdq -e SEED")
+    sh("git reset -q --hard HEAD && git clean -fdq -e SEED")
     rc, o = sh(f"git apply {OUT}/demo.diff")
     if rc != 0:
         lv["demo"] = "demo.diff does not apply to the unchanged tree: " + o[-300:]
